@@ -169,6 +169,13 @@ def real_plans(W, sched, cfg, extra_J=(1, 2, 3, 5, 10, 25, 60)):
     out = []
     f = getattr(Sm, SCHED[sched])
     cfgs = [dict(N=N, fs=fs, olap=olap, bmin=bmin, Lmin=Lmin, Jdes=J, Kdes=Kdes, _primary=True) for J in Js[:8]]
+    if N <= 64:
+        # grids that land exactly on Nyquist need an even record length and a linear grid (Lmin = N)
+        for Nn in (N, N + 1):
+            for bm in (bmin, 1.0, 2.0):
+                if bm * 2 < Nn:
+                    cfgs.append(dict(N=Nn, fs=fs, olap=olap, bmin=bm, Lmin=Nn, Jdes=Jm, Kdes=Kdes))
+                    cfgs.append(dict(N=Nn, fs=fs, olap=0.0, bmin=bm, Lmin=1, Jdes=10, Kdes=100))
     if N <= 64 and sched != "lpsd":
         # the abstracted power / arbitrary loop state may not be hit by the model's own configuration: scan the
         # family that forces every segment length (Lmin clamps the high-frequency bins to L=Lmin)
@@ -735,8 +742,9 @@ ALIAS["C02/invariant-initial"] = None
 
 
 # ============================================================================ SpectrumAnalyzer.plan() and the Jdes search (DYN, fork mode)
-def ob_search(W, lo, hi):
-    """find_Jdes_binary_search with an arbitrary scheduler nf(Jdes): returns J with nf(J)=target, or None"""
+def ob_search(W, lo, hi, prior=False):
+    """find_Jdes_binary_search with an arbitrary scheduler nf(Jdes): returns J with nf(J)=target, or None
+    (prior=True: after an earlier search with ANOTHER scheduler and the same settings in the same process)"""
     import speckit.utils as U
     target = W.int("target", lo=1)
     nfs = {J: W.int("nf_%d" % J, lo=1) for J in range(lo, hi + 1)}
@@ -746,14 +754,23 @@ def ob_search(W, lo, hi):
         J = kw["Jdes"]
         calls.append(J)
         return {"nf": nfs[int(J)]}
+    other = {J: W.int("other_nf_%d" % J, lo=1) for J in range(lo, hi + 1)} if prior else None
+
+    def sched_other(**kw):
+        return {"nf": other[int(kw["Jdes"])]}
     if W.sym:
-        from symx.shim import clone
-        f = clone(U.find_Jdes_binary_search, MIN_JDES=lo, MAX_JDES=hi)
+        from symx.shim import clone_module
+        G = clone_module(U, dict(MIN_JDES=lo, MAX_JDES=hi))
+        f = G["find_Jdes_binary_search"]
+        if prior:
+            f(sched_other, target, N=16)
         ret = f(sched, target, N=16)
     else:
         old = (U.MIN_JDES, U.MAX_JDES)
         U.MIN_JDES, U.MAX_JDES = lo, hi
         try:
+            if prior:
+                U.find_Jdes_binary_search(sched_other, target, N=16)
             ret = U.find_Jdes_binary_search(sched, target, N=16)
         finally:
             U.MIN_JDES, U.MAX_JDES = old
@@ -794,8 +811,8 @@ def ob_plan_forced(W, lo, hi):
     cfgd = {"scheduler_func": sched, "scheduler_name": "stub", "final_olap": 0.5, "bmin": 1.0, "Lmin": 1, "Kdes": 10, "force_target_nf": True, "Jdes": target, "band": None, "num_patch_pts": None}
     a = _mk_analyzer(W, A, sched, cfgd, 10, 1.0, W.sym)
     if W.sym:
-        from symx.shim import clone, NumpyShim
-        srch = clone(U.find_Jdes_binary_search, MIN_JDES=lo, MAX_JDES=hi)
+        from symx.shim import clone, clone_module, NumpyShim
+        srch = clone_module(U, dict(MIN_JDES=lo, MAX_JDES=hi))["find_Jdes_binary_search"]     # fresh module copy per run: no state across paths
         planf = clone(A.SpectrumAnalyzer.plan, np=NumpyShim(), find_Jdes_binary_search=srch)
     else:
         old = (U.MIN_JDES, U.MAX_JDES)
